@@ -411,6 +411,10 @@ def run(rep, n, which):
                 files, w = generate(text, boost=boost)
             except Exception as e:
                 rep.bounded['skipped'] += 1
+                if which == 'C10':
+                    # every interface file of the dialect yields a toolbox: a generator that dies on one produces nothing
+                    rep.violation('c10:generation-fails', 'generation fails on a valid interface file: %s: %s' % (type(e).__name__, str(e)[:120]),
+                                  dict(kind='matlab-C10', input=text, message='generation fails', boost=boost))
                 continue
             rep.bounded['distinct'].add(hash((text, boost)))
             if len(rep.bounded['samples']) < 2:
@@ -424,7 +428,11 @@ def run(rep, n, which):
 def replay(obj):
     import gtwrap.interface_parser as ip
     text = obj['input']
-    files, w = generate(text, boost=bool(obj.get('boost', False)))
+    try:
+        files, w = generate(text, boost=bool(obj.get('boost', False)))
+    except Exception as e:
+        print('observed: generation fails: %s: %s' % (type(e).__name__, e))
+        return 1
     m = abs_module(ip.Module.parseString(text))
     bad = c06_check(text, files, w, m) if obj['kind'].endswith('C06') else c10_check(text, files, w, m)
     for k, msg in bad:
